@@ -427,7 +427,7 @@ theorem enc_shape (cap : Nat) (c : Codec) (lay : Layout) (o : Obj) (hp : Parsabl
 theorem parse_prefix (cap : Nat) : ∀ (L : List (Codec × Layout × Obj)),
     (∀ x ∈ L, Parsable cap x.1 x.2.1 x.2.2 ∧ ArrOK x.1.fresh x.2.1.items) →
     ∀ (m : Nat) (B : Bytes) (ps : PState) (fuel : Nat), PInv B ps → B.drop ps.st.pos = (flat cap L).take m →
-    L.length + 1 < fuel →
+    jOf cap L m + 1 < fuel →
     ∃ ds : List (String × Obj), (objectLoop cap fuel ps).objs = ds.reverse ++ ps.objs ∧
       AllDelivered (L.take (jOf cap L m)) ds ∧ (objectLoop cap fuel ps).outcome = none := by
   intro L
@@ -457,11 +457,12 @@ theorem parse_prefix (cap : Nat) : ∀ (L : List (Codec × Layout × Obj)),
         objectStep_object cap x.1 x.2.1 x.2.2 hp harr B _ ps hi hin1
       have hin' : B.drop ps'.st.pos = (flat cap l).take (m - (enc cap x.1 x.2.2).length) := by
         rw [hpos, ← List.drop_drop, hin1]; simp
-      obtain ⟨ds, h1, h2, h3⟩ := ih (fun y hy => hL y (by simp [hy])) _ B ps' n hi' hin' (by simp at hf; omega)
       have hb : bodyLen x ≤ m := by
         rcases enc_shape cap x.1 x.2.1 x.2.2 hp with ⟨he, _⟩ | ⟨he, _⟩ <;>
           (have := congrArg List.length he; simp only [List.length_append, leBytes_length, zeros_length] at this;
            unfold bodyLen; omega)
+      obtain ⟨ds, h1, h2, h3⟩ := ih (fun y hy => hL y (by simp [hy])) _ B ps' n hi' hin'
+        (by simp only [jOf, if_pos hb] at hf; omega)
       unfold objectLoop
       rw [hstep]
       simp only [hi'.outcome, Option.isSome_none, Bool.false_eq_true, if_false, hi'.ok.good, Bool.not_true]
@@ -492,7 +493,7 @@ theorem parse_prefix (cap : Nat) : ∀ (L : List (Codec × Layout × Obj)),
           obtain ⟨ps', ob, hstep, hi', hpos, hobjs, hag, _⟩ :=
             objectStep_object_tail cap x.1 x.2.1 x.2.2 hp harr B (zeros (m - bodyLen x)) ps hi hpad
               (by simp [zeros_length]; omega) hin1
-          obtain ⟨n', rfl⟩ : ∃ n', n = n' + 1 := ⟨n - 1, by simp at hf; omega⟩
+          obtain ⟨n', rfl⟩ : ∃ n', n = n' + 1 := ⟨n - 1, by simp only [jOf, if_pos hbody] at hf; omega⟩
           unfold objectLoop
           rw [hstep]
           simp only [hi'.outcome, Option.isSome_none, Bool.false_eq_true, if_false, hi'.ok.good, Bool.not_true]
@@ -511,5 +512,30 @@ theorem parse_prefix (cap : Nat) : ∀ (L : List (Codec × Layout × Obj)),
         refine ⟨[], rfl, ?_, hi.outcome⟩
         simp only [jOf, if_neg hbody, List.take_zero]
         exact AllDelivered.nil
+
+theorem jOf_le (cap : Nat) : ∀ (L : List (Codec × Layout × Obj)), (∀ x ∈ L, Parsable cap x.1 x.2.1 x.2.2) →
+    ∀ (m : Nat), jOf cap L m ≤ L.length ∧ jOf cap L m ≤ m := by
+  intro L
+  induction L with
+  | nil => intro _ m; simp [jOf]
+  | cons x l ih =>
+    intro hL m
+    simp only [jOf]
+    by_cases h : bodyLen x ≤ m
+    · rw [if_pos h]
+      obtain ⟨h1, h2⟩ := ih (fun y hy => hL y (by simp [hy])) (m - (enc cap x.1 x.2.2).length)
+      have h4 : 4 ≤ bodyLen x := by unfold bodyLen; omega
+      have hle : bodyLen x ≤ (enc cap x.1 x.2.2).length := by
+        rcases enc_shape cap x.1 x.2.1 x.2.2 (hL x (by simp)) with ⟨he, _⟩ | ⟨he, _⟩ <;>
+          (have := congrArg List.length he; simp only [List.length_append, leBytes_length, zeros_length] at this;
+           unfold bodyLen; omega)
+      simp only [List.length_cons]
+      constructor
+      · omega
+      · by_cases hc : (enc cap x.1 x.2.2).length ≤ m
+        · omega
+        · have : m - (enc cap x.1 x.2.2).length = 0 := by omega
+          rw [this, jOf_zero]; omega
+    · rw [if_neg h]; exact ⟨Nat.zero_le _, Nat.zero_le _⟩
 
 end Blf.TruncRound
